@@ -1,6 +1,6 @@
-From Capy Require Import Common.Util Model.ParserCore Model.Sink Spec.ParseSpec.
+From Capy Require Import Common.Util Model.ParserCore Model.Sink Model.Grammar Spec.ParseSpec.
 From Coq Require Import NArith ZArith.
 Require Extraction.
 Require Import ExtrOcamlBasic.
 Extraction Language OCaml.
-Separate Extraction finish leaves balanced count_add count_nt tree_lossless errs_ok total BinNat.N.succ BinInt.Z.succ.
+Separate Extraction parse_top grammar_fuel finish leaves balanced count_add count_nt tree_lossless errs_ok total BinNat.N.succ BinInt.Z.succ.
